@@ -195,8 +195,14 @@ theorem strideRight_eq (rank : Nat) (E : Arr) (i : Nat) : strideRight rank E i =
   rw [this, loop_prod, Nat.one_mul]
 
 theorem mdSize_eq (rank : Nat) (E : Arr) : mdSize rank E = prodFrom E 0 rank := by
-  simp only [mdSize, forLoop, Nat.sub_zero]
-  rw [loop_prod, Nat.one_mul]
+  simp only [mdSize, forLoop, mdspan_size_lo, mdspan_size_hi, mdspan_size_init, Nat.sub_zero]
+  have : mdspan_size_step rank E = fun r acc => acc * E r := rfl
+  rw [this, loop_prod, Nat.one_mul]
+
+theorem mdarraySize_eq (rank : Nat) (E : Arr) : mdarraySize rank E = prodFrom E 0 rank := by
+  simp only [mdarraySize, forLoop, mdarray_size_lo, mdarray_size_hi, mdarray_size_init, Nat.sub_zero]
+  have : mdarray_size_step rank E = fun r acc => acc * E r := rfl
+  rw [this, loop_prod, Nat.one_mul]
 
 /-! ### Horner forms -/
 
@@ -1085,5 +1091,169 @@ theorem elems_length {α : Type} (s : Span) (mem : List α) (h : s.off + s.size 
   unfold Span.elems
   rw [List.length_take, List.length_drop]
   omega
+
+/-! ## round two -/
+
+/-! ### the offsets depend on the extents only through `extent(r)`, `r < rank` -/
+
+theorem polyL_congr_ext {E F I : Arr} {lo n : Nat} (h : ∀ k, lo ≤ k → k < lo + n → E k = F k) :
+    polyL E I lo n = polyL F I lo n := by
+  induction n generalizing lo with
+  | zero => rfl
+  | succ n ih =>
+    rw [polyL, polyL, h lo (Nat.le_refl _) (by omega), ih (fun k h1 h2 => h k (by omega) (by omega))]
+
+theorem polyR_congr_ext {E F I : Arr} {n : Nat} (h : ∀ k, k < n → E k = F k) : polyR E I n = polyR F I n := by
+  induction n with
+  | zero => rfl
+  | succ n ih =>
+    rw [polyR, polyR, h n (by omega), ih (fun k hk => h k (by omega))]
+
+theorem requiredSpanStride_congr {n : Nat} {E F S T : Arr} (hE : ∀ k, k < n → E k = F k) (hS : ∀ k, k < n → S k = T k) :
+    requiredSpanStride n E S = requiredSpanStride n F T := by
+  by_cases hz : ∃ k, k < n ∧ E k = 0
+  · have hz' : ∃ k, k < n ∧ F k = 0 := by
+      obtain ⟨k, hk, h0⟩ := hz
+      exact ⟨k, hk, by rw [← hE k hk]; exact h0⟩
+    rw [requiredSpanStride_zero_ext S hz, requiredSpanStride_zero_ext T hz']
+  · have hpos : ∀ k, k < n → 0 < E k := by
+      intro k hk
+      rcases Nat.eq_zero_or_pos (E k) with h0 | h0
+      · exact absurd ⟨k, hk, h0⟩ hz
+      · exact h0
+    have hpos' : ∀ k, k < n → 0 < F k := fun k hk => by rw [← hE k hk]; exact hpos k hk
+    rw [requiredSpanStride_pos_ext S hpos, requiredSpanStride_pos_ext T hpos']
+    congr 1
+    exact sumTo_congr (fun k hk => by rw [hE k hk, hS k hk])
+
+/-! ### intermediate values of the Horner loops -/
+
+/-- dropping leading digits of a column-major Horner form never increases it (all extents in between are ≥ 1) -/
+theorem polyL_suffix_le {E I : Arr} (lo d n : Nat) (h : ∀ k, lo ≤ k → k < lo + d → 1 ≤ E k) :
+    polyL E I (lo + d) n ≤ polyL E I lo (d + n) := by
+  induction d generalizing lo with
+  | zero => simp
+  | succ d ih =>
+    have e : d + 1 + n = (d + n) + 1 := by omega
+    rw [e, polyL]
+    have h1 := ih (lo+1) (fun k h1 h2 => h k (by omega) (by omega))
+    have e2 : lo + 1 + d = lo + (d + 1) := by omega
+    rw [e2] at h1
+    have h2 : 1 ≤ E lo := h lo (Nat.le_refl _) (by omega)
+    have h3 : polyL E I (lo + 1) (d + n) ≤ E lo * polyL E I (lo + 1) (d + n) := by
+      have := Nat.mul_le_mul_right (polyL E I (lo + 1) (d + n)) h2
+      rw [Nat.one_mul] at this
+      exact this
+    omega
+
+/-- a prefix of a row-major Horner form never exceeds the whole (all further extents are ≥ 1) -/
+theorem polyR_prefix_le {E I : Arr} (m d : Nat) (h : ∀ k, m ≤ k → k < m + d → 1 ≤ E k) :
+    polyR E I m ≤ polyR E I (m + d) := by
+  induction d with
+  | zero => exact Nat.le_refl _
+  | succ d ih =>
+    have h1 := ih (fun k h1 h2 => h k h1 (by omega))
+    show polyR E I m ≤ I (m + d) + E (m + d) * polyR E I (m + d)
+    have h2 : 1 ≤ E (m + d) := h (m + d) (by omega) (by omega)
+    have h3 : polyR E I (m + d) ≤ E (m + d) * polyR E I (m + d) := by
+      have := Nat.mul_le_mul_right (polyR E I (m + d)) h2
+      rw [Nat.one_mul] at this
+      exact this
+    omega
+
+theorem sumTo_term_le {n r : Nat} (hr : r < n) (f : Nat → Nat) : f r ≤ sumTo n f := by
+  induction n with
+  | zero => omega
+  | succ n ih =>
+    simp only [sumTo]
+    by_cases h : r = n
+    · subst h; omega
+    · have := ih (by omega); omega
+
+/-! ### uniqueness of strided mappings: dimensions of extent 1 do not matter -/
+
+theorem dotList_cons (S I : Arr) (a : Nat) (t : List Nat) : dotList S I (a :: t) = I a * S a + dotList S I t := by
+  simp [dotList]
+
+theorem dotList_filter_split (S I : Arr) (q : Nat → Bool) (l : List Nat) :
+    dotList S I l = dotList S I (l.filter q) + dotList S I (l.filter (fun a => !q a)) := by
+  induction l with
+  | nil => rfl
+  | cons a t ih =>
+    by_cases hq : q a = true
+    · have e1 : (a :: t).filter q = a :: t.filter q := by simp [hq]
+      have e2 : (a :: t).filter (fun a => !q a) = t.filter (fun a => !q a) := by simp [hq]
+      rw [e1, e2, dotList_cons, dotList_cons, ih]
+      omega
+    · have hq' : q a = false := by simpa using hq
+      have e1 : (a :: t).filter q = t.filter q := by simp [hq']
+      have e2 : (a :: t).filter (fun a => !q a) = a :: t.filter (fun a => !q a) := by simp [hq']
+      rw [e1, e2, dotList_cons, dotList_cons, ih]
+      omega
+
+theorem dotList_zero (S I : Arr) (l : List Nat) (h : ∀ a, a ∈ l → I a = 0) : dotList S I l = 0 := by
+  induction l with
+  | nil => rfl
+  | cons a t ih =>
+    rw [dotList_cons, h a (by simp), ih (fun b hb => h b (List.mem_cons_of_mem _ hb))]
+    simp
+
+/-- the dimensions that matter for uniqueness: those whose extent is not 1 -/
+def bigDims (n : Nat) (E : Arr) : List Nat := (List.range n).filter (fun k => E k != 1)
+
+theorem mem_bigDims {n : Nat} {E : Arr} {k : Nat} : k ∈ bigDims n E ↔ k < n ∧ E k ≠ 1 := by
+  simp [bigDims, List.mem_filter]
+
+/-- for a valid index the strided offset is the dot product over the dimensions of extent ≠ 1 only -/
+theorem offsetStride_eq_dotList_big {n : Nat} (E S I : Arr) (hI : Valid n E I) {p : List Nat}
+    (hp : p.Perm (bigDims n E)) : offsetStride n S I = dotList S I p := by
+  rw [offsetStride_eq_dotList S I (List.Perm.refl (List.range n)), dotList_filter_split S I (fun k => E k != 1)]
+  have hz : dotList S I ((List.range n).filter (fun a => !(E a != 1))) = 0 := by
+    apply dotList_zero
+    intro a ha
+    rw [List.mem_filter, List.mem_range] at ha
+    have h1 : E a = 1 := by simpa using ha.2
+    have := hI a ha.1
+    omega
+  rw [hz, Nat.add_zero]
+  exact ((hp.map _).sum_nat).symm
+
+/-- the sorted-stride criterion: the dimensions of extent ≠ 1 can be listed from the largest stride downwards such
+    that each stride covers the whole span of the next dimension and the smallest stride is at least 1 -/
+def SortedUnique (n : Nat) (E S : Arr) : Prop := ∃ p : List Nat, p.Perm (bigDims n E) ∧ DescChain E S p
+
+/-! ### mdarray from mdspan: the container keeps its size -/
+
+theorem initStep_length (other acc : Md) (t : List Nat) : (initStep other acc t).data.length = acc.data.length := by
+  unfold initStep
+  cases other.get? (arr t) with
+  | none => rfl
+  | some v => simp [Md.set]
+
+theorem initFold_length (other : Md) (tuples : List (List Nat)) (acc : Md) :
+    (tuples.foldl (initStep other) acc).data.length = acc.data.length := by
+  induction tuples generalizing acc with
+  | nil => rfl
+  | cons t ts ih => rw [List.foldl_cons, ih, initStep_length]
+
+theorem initStep_map (other acc : Md) (t : List Nat) : (initStep other acc t).map = acc.map := by
+  unfold initStep
+  cases other.get? (arr t) with
+  | none => rfl
+  | some v => simp [Md.set]
+
+theorem initFold_map (other : Md) (tuples : List (List Nat)) (acc : Md) :
+    (tuples.foldl (initStep other) acc).map = acc.map := by
+  induction tuples generalizing acc with
+  | nil => rfl
+  | cons t ts ih => rw [List.foldl_cons, ih, initStep_map]
+
+/-! ### default-constructed extents -/
+
+theorem extent_default_dynamic (p : Pattern) (r : Nat) (hr : r < p.length) (h : p[r]? = some none) :
+    (Extents.dflt p).extent r = 0 := by
+  rw [extent_dynamic (Extents.dflt p) r hr h]
+  simp only [Extents.dflt, List.getD_eq_getElem?_getD, List.getElem?_replicate]
+  split <;> rfl
 
 end DV.C14
